@@ -248,16 +248,16 @@ PROPS = {
         'must_observe': ['leaf_renders_compared', 'block_renders_compared', 'orphan_block_sets', 'both_refuse', 'chains_reparented_after_registration'],
     },
     'C05': {
-        'scale': {'quick': 4, 'thorough': 15},
+        'scale': {'quick': 2, 'thorough': 10},
         'level': 'exploration',
         'technique': 'reference-model monitor for component binding observed through the engine\'s own `__tera_context` dump inside every generated component, accept/reject agreement, API-vs-template differential, escaping, fallback-prefix priority and recursion checks',
         'claim': 'Signatures of 0-5 parameters x {untyped, 7 types} x {no default, default of each literal kind} x rest; calls inline and with body, literal/braced/shorthand/spread arguments, unknown arguments, from the top level, loops, blocks, includes, captures and other components\' bodies. '
                  'The dump printed first in the component must equal the model\'s bound map (declared parameters, defaults, rest, body - nothing from the caller or the global context, both populated with decoys); missing-required, unknown-without-rest and declared/inferred type mismatches must be rejected; '
-                 'render_component(name, ctx, body, flag) must equal the equivalent template call; component results are not escaped again and bodies follow the caller\'s mode; with 1-3 fallback prefixes the highest-priority definition wins (duplicates at the winning priority rejected); '
+                 'render_component(name, ctx, body, flag) must equal the equivalent template call, and so must the same call rendered as a one-off string through render_str; component results are not escaped again and bodies follow the caller\'s mode; with 1-3 fallback prefixes the highest-priority definition wins (duplicates at the winning priority rejected); '
                  'self/mutual/through-body/through-include recursion without base case must be an error, bounded recursion within the limit must render.',
         'note': 'generator exclusions: negative parameter defaults, map literals forming `{{`/`}}` inside `name={..}`, typed parameters whose default contradicts the type; which escaping mode a component\'s own prints follow when caller and definer disagree is not asserted',
         'rule': "one evaluation = one registration/render; a cell = (number of parameters, rest/closed, body/inline, call site, bound or rejection reason) plus cells of the escaping, priority and recursion families",
-        'must_observe': ['context_dumps_compared', 'rejections_agree', 'api_template_pairs', 'escape_checks', 'priority_checks', 'recursion_checks'],
+        'must_observe': ['context_dumps_compared', 'rejections_agree', 'api_template_pairs', 'escape_checks', 'priority_checks', 'recursion_checks', 'render_str_calls_compared'],
     },
     'C01': {
         'scale': {'quick': 2, 'thorough': 1.5},
